@@ -1,13 +1,197 @@
-(* C15 - property theorems (each a one-line `exact`), Print Assumptions, non-vacuity examples. *)
-From Coq Require Import List Arith Bool ZArith QArith.
+(* C15 - cut vertices, bridges, k-cores, PageRank and Louvain obey their definitions.
+   Property theorems (each a one-line `exact`), Print Assumptions, non-vacuity examples.
+   Models: C15/Graph.v (input representation, symmetrised simple graph), KCore.v, PageRank.v (Q),
+   Louvain.v (move choice = oracle), Artic.v (after repository commit 640de1b). *)
+From Coq Require Import List Arith Bool ZArith QArith Qabs Permutation.
 From SV Require Import C15.Graph C15.Artic C15.ArticSpec C15.KCore C15.KCoreSpec C15.PageRank C15.Louvain.
+From SV Require C15.KCoreProofs C15.PageRankProofs C15.LouvainProofs C15.ArticProofs C15.ArticSpecProofs.
 Import ListNotations.
 Open Scope nat_scope.
 
-(* two triangles joined by the bridge 2-3, given one way *)
+(* ------------------------------------------------------------------ (1) k-core *)
+(* For every pop order `pick` (buckets[k].pop() takes an arbitrary element): the peeling never runs out
+   of fuel, pops every node exactly once, gives each node v the number c such that v lies in a subgraph
+   of minimum degree >= c and in none of larger minimum degree (KCoreSpec.core_number), and kcore(k)
+   returns exactly the nodes whose core number is >= k. *)
+Theorem C15_kcore : forall pick g, valid_graph g = true ->
+  (exists r, kcore_decomposition pick g = Some r /\ kcore_spec g (k_solution r) /\
+             k_iterations r = length (nodes g) /\ k_evaluations r = length (nodes g)) /\
+  (forall k, exists cs it ev, kcore pick g k = Some (cs, length cs, it, ev) /\
+     forall v, In v cs <-> exists c, In v (nodes g) /\ core_number g v c /\ k <= c).
+Proof. exact KCoreProofs.kcore_full. Qed.
+Print Assumptions C15_kcore.
+
+Theorem C15_kcore_pick_independent : forall pick1 pick2 g r1 r2, valid_graph g = true ->
+  kcore_decomposition pick1 g = Some r1 -> kcore_decomposition pick2 g = Some r2 ->
+  forall v, aget (k_solution r1) v = aget (k_solution r2) v.
+Proof. exact KCoreProofs.kcore_pick_independent. Qed.
+Print Assumptions C15_kcore_pick_independent.
+
+(* the checker evaluated on the IMPLEMENTATION's answer in every correspondence case ("survives
+   repeated deletion of nodes of degree below k") is sound for the specification *)
+Theorem C15_kcore_check_sound : forall g sol, kcore_check g sol = true -> kcore_spec g sol.
+Proof. exact KCoreProofs.kcore_check_sound. Qed.
+Print Assumptions C15_kcore_check_sound.
+
+(* ------------------------------------------------------------------ (2) PageRank over Q *)
+Theorem C15_pr_simplex : forall g d tol mi r,
+  valid_graph g = true -> (0 <= d)%Q -> (d <= 1)%Q -> pagerank g d tol mi = PR_ok r ->
+  (forall v, In v (nodes g) -> (0 <= score (p_scores r) v)%Q)
+  /\ (qsum (map (score (p_scores r)) (nodes g)) == 1)%Q.
+Proof. exact PageRankProofs.pr_simplex. Qed.
+Print Assumptions C15_pr_simplex.
+
+(* ... for every iteration count (no stopping rule), and for max_iter = 0 *)
+Theorem C15_pr_simplex_iterate : forall g d k,
+  valid_graph g = true -> nodes g <> [] -> (0 <= d)%Q -> (d <= 1)%Q ->
+  let s := iterate k g d (init_scores g) in
+  (forall v, In v (nodes g) -> (0 <= score s v)%Q) /\ (qsum (map (score s) (nodes g)) == 1)%Q.
+Proof. exact PageRankProofs.pr_simplex_iterate. Qed.
+Print Assumptions C15_pr_simplex_iterate.
+
+Theorem C15_pr_simplex_noiter : forall g d tol mi s,
+  valid_graph g = true -> (0 <= d)%Q -> (d <= 1)%Q -> pagerank g d tol mi = PR_noiter s ->
+  (forall v, In v (nodes g) -> (0 <= score s v)%Q) /\ (qsum (map (score s) (nodes g)) == 1)%Q.
+Proof. exact PageRankProofs.pr_simplex_noiter. Qed.
+Print Assumptions C15_pr_simplex_noiter.
+
+(* when the stopping rule max_v |new v - old v| < tol fires, the L1 residual of the damped equation with
+   uniform dangling redistribution, sum_v |s v - F(s) v|, is at most damping * n * tol *)
+Theorem C15_pr_residual : forall g d tol mi r,
+  valid_graph g = true -> (0 <= d)%Q -> (d <= 1)%Q -> pagerank g d tol mi = PR_ok r ->
+  p_status r = P_OPTIMAL ->
+  (residual g d (p_scores r) <= d * qn (length (nodes g)) * tol)%Q.
+Proof. exact PageRankProofs.pr_residual. Qed.
+Print Assumptions C15_pr_residual.
+
+Theorem C15_pr_iterations : forall g d tol mi r, pagerank g d tol mi = PR_ok r ->
+  (1 <= p_iterations r <= mi) /\ (p_status r = P_MAX_ITER -> p_iterations r = mi).
+Proof. exact PageRankProofs.pr_iterations_bound. Qed.
+Print Assumptions C15_pr_iterations.
+
+(* ------------------------------------------------------------------ (3) Louvain *)
+(* for EVERY oracle move sequence accepted by the model (each chosen community is the node's own or a
+   neighbour's; sweep structure matches `while improved`) the result is a partition of the node set:
+   no empty community, and the communities concatenated are a permutation of the (duplicate-free) node
+   list *)
+Theorem C15_louvain_partition : forall g res passes r, valid_graph g = true ->
+  louvain g res passes = Some r ->
+  (forall c, In c (l_comms r) -> c <> []) /\ Permutation (concat (l_comms r)) (nodes g).
+Proof. exact LouvainProofs.louvain_partition. Qed.
+Print Assumptions C15_louvain_partition.
+
+(* node_to_comm / comm_nodes / comm_degree stay consistent (LouvainProofs.lv_consistent) along every
+   accepted move sequence *)
+Theorem C15_louvain_consistent : forall g passes s' it', valid_graph g = true ->
+  sweeps g passes (linit g) 0 = Some (s', it') -> LouvainProofs.lv_consistent g s'.
+Proof. exact LouvainProofs.louvain_consistent_run. Qed.
+Print Assumptions C15_louvain_consistent.
+
+(* DEFINITIONAL for the model (the model computes the reported value by this formula; Qred only
+   normalises): the reported objective is the modularity formula of the returned communities.  The
+   independent check of the implementation's number is lv_spec_check below / the Python reference. *)
+Theorem C15_louvain_modularity : forall g res passes r, louvain g res passes = Some r ->
+  ((total_weight g == 0)%Q \/ length (nodes g) <= 1 -> (l_objective r == 0)%Q) /\
+  (~ (total_weight g == 0)%Q -> 2 <= length (nodes g) ->
+   (l_objective r == modularity g res (l_comms r))%Q).
+Proof. exact LouvainProofs.louvain_modularity. Qed.
+Print Assumptions C15_louvain_modularity.
+
+Theorem C15_louvain_check_sound : forall eps g res cs obj, valid_graph g = true ->
+  lv_spec_check eps g res cs obj = true ->
+  ((forall c, In c cs -> c <> []) /\ NoDup (concat cs) /\ (forall v, In v (concat cs) <-> In v (nodes g))) /\
+  (~ (total_weight g == 0)%Q -> (Qabs (modularity g res cs - obj) <= eps)%Q) /\
+  ((total_weight g == 0)%Q -> (obj == 0)%Q).
+Proof. exact LouvainProofs.lv_spec_check_sound_full. Qed.
+Print Assumptions C15_louvain_check_sound.
+
+(* ------------------------------------------------------------------ (4) articulation points / bridges *)
+(* bookkeeping facts of the low-link DFS (partial correctness): reported vertices are nodes, reported
+   once; reported edges are edges of the symmetrised graph in canonical (min,max) order; every node is
+   discovered with low <= disc; one dfs call per node; the recursion never runs out of fuel *)
+Theorem C15_artic_sound_partial : forall g s, valid_graph g = true -> run g = Some s ->
+  (forall v, In v (aps s) -> In v (nodes g)) /\ NoDup (aps s) /\
+  (forall a b, In (a, b) (brs s) -> a < b /\ edge_b g a b = true) /\
+  (forall v, In v (nodes g) ->
+     exists d l, aget (disc s) v = Some d /\ aget (low s) v = Some l /\ l <= d) /\
+  iters s = length (nodes g).
+Proof. exact ArticProofs.artic_sound_partial. Qed.
+Print Assumptions C15_artic_sound_partial.
+
+Theorem C15_artic_fuel_ok : forall g, valid_graph g = true -> run g <> None.
+Proof. exact ArticProofs.run_fuel_ok. Qed.
+Print Assumptions C15_artic_fuel_ok.
+
+(* per-run certificate (removal-and-recount in Gallina, evaluated in the kernel on the IMPLEMENTATION's
+   answer for every explored case): if it accepts `sol`, then `sol` is EXACTLY the set of vertices /
+   canonical edges whose removal increases the number of connected components (ArticSpec.is_cut_vertex,
+   is_bridge: reachability-based component count) *)
+Theorem C15_cut_vertex_cert_sound : forall g sol,
+  valid_graph g = true -> ap_spec_check g sol = true ->
+  forall v, In v sol <-> is_cut_vertex g v.
+Proof. exact ArticSpecProofs.ap_spec_check_sound_iff. Qed.
+Print Assumptions C15_cut_vertex_cert_sound.
+
+Theorem C15_bridge_cert_sound : forall g sol,
+  valid_graph g = true -> br_spec_check g sol = true ->
+  (forall a b, In (a, b) sol -> a < b /\ is_bridge g a b) /\
+  (forall a b, a < b -> is_bridge g a b -> In (a, b) sol).
+Proof. exact ArticSpecProofs.br_spec_check_sound. Qed.
+Print Assumptions C15_bridge_cert_sound.
+
+Theorem C15_is_cut_vertex_b_sound : forall g v,
+  valid_graph g = true -> is_cut_vertex_b g v = true -> is_cut_vertex g v.
+Proof. exact ArticSpecProofs.is_cut_vertex_b_sound. Qed.
+Print Assumptions C15_is_cut_vertex_b_sound.
+
+Theorem C15_is_bridge_b_sound : forall g e,
+  valid_graph g = true -> is_bridge_b g e = true -> is_bridge g (fst e) (snd e).
+Proof. exact ArticSpecProofs.is_bridge_b_sound. Qed.
+Print Assumptions C15_is_bridge_b_sound.
+
+(* STRETCH, not proved here: exactness of the DFS model itself (the per-run certificate above covers the
+   implementation's answers case by case instead). *)
+Definition C15_artic_exact_full_statement : Prop :=
+  forall g s, valid_graph g = true -> run g = Some s ->
+    (forall v, In v (aps s) <-> is_cut_vertex g v) /\
+    (forall a b, In (a, b) (brs s) <-> (a < b /\ is_bridge g a b)).
+
+(* ------------------------------------------------------------------ non-vacuity *)
+(* two triangles joined by the bridge 2-3, every edge given one way *)
 Definition ex_g : graph := [(0, [1; 2]); (1, [2]); (2, [3]); (3, [4; 5]); (4, [5]); (5, [])].
+(* random node order, duplicate neighbour, label 7 outside the node set, self loop, isolated node 4 *)
+Definition ex_h : graph := [(3, [1; 1; 7]); (1, [0]); (0, [3; 0]); (2, [0]); (4, [])].
 
 Example C15_artic_example :
+  valid_graph ex_g = true /\ valid_graph ex_h = true /\
   articulation_points ex_g = Some ([3; 2], 2, 6, 6) /\ bridges ex_g = Some ([(2, 3)], 1, 6, 6) /\
-  ap_spec_check ex_g [2; 3] = true /\ br_spec_check ex_g [(2, 3)] = true.
+  articulation_points ex_h = Some ([0], 1, 5, 5) /\ bridges ex_h = Some ([(0, 2)], 1, 5, 5) /\
+  ap_spec_check ex_g [2; 3] = true /\ br_spec_check ex_g [(2, 3)] = true /\
+  ap_spec_check ex_h [0] = true /\ br_spec_check ex_h [(0, 2)] = true /\
+  ap_spec_check ex_h [] = false /\ br_spec_check ex_g [(2, 3); (0, 1)] = false.
+Proof. vm_compute. repeat split; reflexivity. Qed.
+
+Example C15_kcore_example :
+  option_map k_solution (kcore_decomposition pick_first ex_h)
+    = Some [(4, 0); (2, 1); (0, 2); (3, 2); (1, 2)] /\
+  kcore pick_first ex_h 2 = Some ([0; 3; 1], 3, 5, 5) /\
+  kcore_check ex_h [(3, 2); (1, 2); (0, 2); (2, 1); (4, 0)] = true /\
+  kcore_check ex_h [(3, 2); (1, 2); (0, 2); (2, 2); (4, 0)] = false.
+Proof. vm_compute. repeat split; reflexivity. Qed.
+
+Example C15_pagerank_example :
+  match pagerank ex_h (17 # 20) (1 # 100) 50 with
+  | PR_ok r => p_iterations r = 7 /\ p_status r = P_OPTIMAL /\
+               pr_spec_check (1 # 1000000000) ex_h (17 # 20) ((17 # 20) * 5 * (1 # 100)) (p_scores r) = true
+  | _ => False
+  end.
+Proof. vm_compute. repeat split; reflexivity. Qed.
+
+(* move sequence recorded from the real run on ex_g (resolution 1.0) *)
+Example C15_louvain_example :
+  option_map (fun r => (l_comms r, l_objective r, l_iterations r))
+     (louvain ex_g 1%Q [[1; 1; 1; 4; 5; 5]; [1; 1; 1; 5; 5; 5]; [1; 1; 1; 5; 5; 5]])
+    = Some ([[0; 1; 2]; [3; 4; 5]], (5 # 14)%Q, 3) /\
+  lv_spec_check (1 # 1000000000) ex_g 1%Q [[0; 1; 2]; [3; 4; 5]] (5 # 14)%Q = true /\
+  louvain ex_g 1%Q [[3; 1; 1; 4; 5; 5]] = None.
 Proof. vm_compute. repeat split; reflexivity. Qed.
